@@ -118,10 +118,10 @@ def maxPlain (size : Nat) : Nat :=
   match size with
   | 0 => 64 | 1 => 2048 | 2 => 8192 | 3 => 65536 | 4 => 262144 | _ => 1048576
 
-/-- upper bound of a compressed value's original length (the list-based model is quadratic here) -/
+/-- upper bound of a compressed value's original length -/
 def maxCompressed (size : Nat) : Nat :=
   match size with
-  | 0 => 64 | 1 => 1024 | 2 => 4096 | 3 => 12288 | 4 => 32768 | _ => 65536
+  | 0 => 64 | 1 => 1024 | 2 => 4096 | 3 => 65536 | 4 => 262144 | _ => 1048576
 
 /-- boundary-heavy length in [1, hi] -/
 def genLen (hi : Nat) : Gen Nat := do
